@@ -387,6 +387,22 @@ theorem volume_voxel_is_stored_pixel_partial (x : PMInput) (o : PMObject) (h : b
       (∀ s, s < n.toNat → (s : Int) ∉ vp → slices[s]? = some none) :=
   getVolume_build x o h hel hw hpos cached ori hint rtol atol am hm hnd sp origin n vp ha hvl hvn hvr
 
+/-- **... and under the real-world transform every voxel is the stored pixel mapped by the mapping selected from the mappings
+attached to ITS frame** (`getVolumeReal`; single channel: the shared mappings `x.maps 0`; the selector reaches every frame's
+transform: `tie_read_forwarding`, T19f): slice `vp[i]` holds `applyMapping mp` of the values of plane `i`; a failing selection or
+one value outside the mapped range refuses the whole call (then `hmap` cannot hold). -/
+theorem volume_voxel_under_mapping_partial (x : PMInput) (o : PMObject) (h : build x = .ok o) (_hts : x.ts ∈ nativeSyntaxes)
+    (hel : o.element = "PixelData") (hw : CellsWF x) (hpos : 0 < x.r * x.c * x.itemsize) (cached : Bool) (ori : List Rat)
+    (hint rtol atol : Option Rat) (am : Bool) (sel : Selector) (hm : x.m = 1) (hnd : (positionRows x).Nodup) (sp : Rat)
+    (origin : List Rat) (n : Int) (vp : List Int)
+    (ha : Stack.assembleFrames (positionRows x) ori hint rtol atol am = .ok (sp, origin, n, vp))
+    (hvl : vp.length = x.n) (hvn : vp.Nodup) (hvr : ∀ v ∈ vp, 0 ≤ v ∧ v < n) (vals : Nat → List Rat)
+    (hmap : ∀ i, i < x.n → (select (x.maps 0) sel).bind (fun mp => applyMapping mp ((plane x i 0).map cellValue)) = .ok (vals i)) :
+    ∃ slices, getVolumeReal x o cached ori hint rtol atol am sel = .ok (sp, origin, slices) ∧ slices.length = n.toNat ∧
+      (∀ i (hi : i < x.n), ∃ v, vp[i]? = some v ∧ slices[v.toNat]? = some (some (vals i))) ∧
+      (∀ s, s < n.toNat → (s : Int) ∉ vp → slices[s]? = some none) :=
+  getVolumeReal_build x o h hel hw hpos cached ori hint rtol atol am sel hm hnd sp origin n vp ha hvl hvn hvr vals hmap
+
 /-- a map with several channels (every position carries several frames) or with planes at equal positions has no volume:
 `get_volume` refuses ("positions do not uniquely identify frames") -/
 theorem volume_refused_when_positions_shared (x : PMInput) (o : PMObject) (cached : Bool) (ori : List Rat)
@@ -678,5 +694,9 @@ example : (build volumeInput).toOption.bind (fun o =>
 example (o : PMObject) (h : build volumeInput = .ok o) (hel : o.element = "PixelData") :=
   volume_voxel_is_stored_pixel_partial volumeInput o h (by decide) hel (by intro i k j; rfl) (by decide) true [1, 0, 0, 0, 1, 0]
     none none none false rfl (by decide +kernel) 1 [0, 0, 5] 3 [0, 2, 1] (by decide +kernel) rfl (by decide) (by decide)
+/-- the same volume with the real-world transform `1.5 * x + 1` (selected by label) -/
+example : (build volumeInput).toOption.bind (fun o =>
+      (getVolumeReal volumeInput o true [1, 0, 0, 0, 1, 0] none none none false (.label "a")).toOption.map (fun r => r.2.2)) =
+    some [some [1, 5 / 2], some [31, 65 / 2], some [16, 35 / 2]] := by decide +kernel
 
 end HdVerif.C19
